@@ -10,8 +10,15 @@
 * ManualExecutor -- stand-in for ThreadPoolExecutor: submit() only records the job; the harness runs the
                    two halves of each job (the real Disk._page_out/_page_in body, then the real Manager
                    callback) when the op list says so
-* Clock, UUIDs  -- scripted time.time_ns / uuid.uuid4 (both only where the implementation still has the seam; the harness does not
-                   depend on HOW reader ids are produced: it canonicalises the ids it observes)
+* Clock, UUIDs  -- scripted clocks / uuid.uuid4 (both only where the implementation still has the seam; the harness does not
+                   depend on HOW reader ids are produced: it canonicalises the ids it observes).  Every clock of the `time` module
+                   is a view of the one scripted `now`, each with its own epoch as on a real machine (wall clock: nanoseconds since
+                   1970; monotonic: since boot; perf_counter: yet another origin), so that mixing clock domains shows
+* Sched, Task    -- cooperative scheduling of the code that runs on the Disk threads (job bodies and Manager callbacks): such a
+                   piece of code can be run as a Task in its own thread that the harness parks at the YIELD POINTS the code really has --
+                   log calls, (blocking) lock acquisitions, every operation on a shared-memory segment, every operation on a page
+                   file -- so that a request of the main thread or a step of another job can be run in between.  A task that holds a
+                   watched lock is never parked (critical sections stay atomic, nobody else could enter them anyway)
 * Hang, WatchedLock, wait_or_hang -- a check must never hang: every call into the implementation runs in a watched daemon thread;
                    a thread that takes a plain lock it already holds is reported at once (deterministically), any other blocking call
                    by a no-progress watchdog that looks at the scheduler state of the threads involved
@@ -29,6 +36,177 @@ class Hang(BaseException):
     """a call into the implementation blocks for ever (BaseException: `except Exception` in the implementation must not swallow it)"""
 
 
+class TaskAbort(BaseException):
+    """raised inside a parked task when its history ends (BaseException: no `except Exception` of the implementation swallows it)"""
+
+
+class Task:
+    """one piece of Disk-thread code (a job body or a Manager callback) in its own thread, run from yield point to yield point.
+    Exactly one of {the history thread, this task} runs at any time: run_until hands over and waits for the task to park or end."""
+
+    def __init__(self, fn, args, fault=False, name="task"):
+        self.fn, self.args, self.fault, self.name = fn, args, fault, name
+        self.thread = None
+        self.done = False
+        self.parked = False          # waiting for the harness (not for the implementation)
+        self.parked_at = None        # label of the yield point it is about to pass
+        self.passed = []             # labels of the yield points passed so far
+        self.locks_held = 0
+        self.stop = lambda label: False
+        self.wake = threading.Event()
+        self.report = threading.Event()
+        self.abort = False
+        self.exc = None
+        self.hang = None
+
+    def _main(self):
+        SCHED.tasks[threading.get_ident()] = self
+        try:
+            self.fn(*self.args)
+        except Hang as h:
+            self.hang = str(h)
+        except TaskAbort:
+            pass
+        except Exception as e:       # what a thread pool would park in the future object
+            self.exc = e
+        finally:
+            SCHED.tasks.pop(threading.get_ident(), None)
+            self.done = True
+            self.parked_at = None
+            self.report.set()
+
+    def at_point(self, label):
+        if self.locks_held > 0:
+            return
+        if self.abort:
+            raise TaskAbort()
+        if self.stop(label):
+            self.parked_at = label
+            self.parked = True
+            self.report.set()
+            self.wake.wait()
+            self.wake.clear()
+            self.parked = False
+            if self.abort:
+                raise TaskAbort()
+            self.parked_at = None
+        self.passed.append(label)
+
+    def run_until(self, stop, timeout=60):
+        """let the task run (start it if need be) until it is about to pass a yield point with stop(label), or ends; returns the
+        labels it passed meanwhile"""
+        n0 = len(self.passed)
+        if self.done:
+            return []
+        self.stop = stop
+        self.report.clear()
+        if self.thread is None:
+            self.thread = threading.Thread(target=self._main, daemon=True, name="verif-shm-" + self.name)
+            self.thread.start()
+        else:
+            self.wake.set()
+        if not self.report.wait(timeout):
+            raise Hang(f"{self.name} neither reached a yield point nor ended within {timeout} s")
+        if self.hang:
+            raise Hang(self.hang)
+        return self.passed[n0:]
+
+    def finish(self):
+        return self.run_until(lambda label: False)
+
+    def kill(self):
+        if self.thread is not None and not self.done:
+            self.abort = True
+            self.wake.set()
+            self.thread.join(10)
+
+    def busy(self):
+        return self.thread is not None and self.thread.is_alive() and not self.parked
+
+
+class Sched:
+    def __init__(self):
+        self.tasks = {}              # thread ident -> Task
+
+    def current(self):
+        return self.tasks.get(threading.get_ident())
+
+    def point(self, label):
+        t = self.tasks.get(threading.get_ident())
+        if t is not None:
+            t.at_point(label)
+
+
+SCHED = Sched()
+
+
+def counter_stop(n):
+    """stop predicate: let n yield points pass, park at the next one"""
+    left = [n]
+
+    def stop(label):
+        if left[0] <= 0:
+            return True
+        left[0] -= 1
+        return False
+    return stop
+
+
+class YLogger:
+    """stands in for the module-level `logger` of cascade.shm.dataset / disk: nothing is written, every call is a yield point
+    (its arguments have been evaluated by then, as with the real logger)"""
+
+    def _call(self, *a, **k):
+        SCHED.point("log")
+
+    debug = info = warning = warn = error = exception = critical = fatal = log = _call
+
+    def isEnabledFor(self, *a, **k):
+        return False
+
+    def getEffectiveLevel(self):
+        return 100
+
+    def __getattr__(self, name):
+        return lambda *a, **k: None
+
+
+class YFile:
+    """a page file whose every operation is a yield point"""
+
+    def __init__(self, f):
+        self._f = f
+
+    def read(self, *a):
+        SCHED.point("file:read")
+        return self._f.read(*a)
+
+    def readinto(self, *a):
+        SCHED.point("file:read")
+        return self._f.readinto(*a)
+
+    def write(self, *a):
+        SCHED.point("file:write")
+        return self._f.write(*a)
+
+    def close(self):
+        SCHED.point("file:close")
+        return self._f.close()
+
+    def __enter__(self):
+        return self
+
+    def __exit__(self, *exc):
+        self.close()
+        return False
+
+    def __iter__(self):
+        return iter(self._f)
+
+    def __getattr__(self, name):
+        return getattr(self._f, name)
+
+
 HANGS = {"seen": 0}
 _LOCK_TYPE = type(threading.Lock())
 
@@ -40,15 +218,21 @@ class WatchedLock:
 
     def __init__(self, real, name, log):
         self._real, self._name, self._log, self._owner = real, name, log, None
+        self._owner_task = None
 
     def acquire(self, blocking=True, timeout=-1):
         me = threading.get_ident()
+        if blocking and self._owner != me:
+            SCHED.point("lock:" + self._name)      # a Disk-thread task may be parked right before it takes the lock
         if blocking and (timeout is None or timeout < 0) and self._owner == me and self._real.locked():
             self._log.append((self._name, "reacquire"))
             raise Hang(f"a thread acquires the non-reentrant lock `{self._name}` while holding it: it would block for ever")
         ok = self._real.acquire(blocking, -1 if timeout is None else timeout)
         if ok:
             self._owner = me
+            self._owner_task = SCHED.current()
+            if self._owner_task is not None:
+                self._owner_task.locks_held += 1
             self._log.append((self._name, "acq"))
         else:
             self._log.append((self._name, "busy"))
@@ -56,6 +240,9 @@ class WatchedLock:
 
     def release(self):
         self._owner = None
+        if self._owner_task is not None:
+            self._owner_task.locks_held -= 1
+            self._owner_task = None
         self._log.append((self._name, "rel"))
         self._real.release()
 
@@ -130,19 +317,7 @@ class Registry:
         self.fault = False
 
 
-WORLD = types.SimpleNamespace(reg=Registry(), gates={})
-
-
-class Gate:
-    """holds the thread that runs a real Disk._page_out body just before its shm.unlink()"""
-
-    def __init__(self):
-        self.progress = threading.Event()   # set when the body reached the gate or ended
-        self.go = threading.Event()
-        self.at_gate = False
-        self.passed = False
-        self.abort = False
-        self.parked = False                 # the body thread is waiting for the harness (not for the implementation)
+WORLD = types.SimpleNamespace(reg=Registry(), avail=2 ** 62)
 
 
 class FakeSharedMemory:
@@ -150,6 +325,7 @@ class FakeSharedMemory:
         reg = WORLD.reg
         if name is None:
             raise ValueError("anonymous segments are not used by cascade.shm")
+        SCHED.point("shm:create" if create else "shm:attach")
         if create:
             if not size > 0:
                 raise ValueError("'size' must be a positive number different from zero")
@@ -166,22 +342,14 @@ class FakeSharedMemory:
 
     @property
     def buf(self):
+        SCHED.point("shm:buf")
         return memoryview(self._mem)
 
     def close(self):
-        pass
+        SCHED.point("shm:close")
 
     def unlink(self):
-        g = WORLD.gates.get(threading.get_ident())
-        if g is not None and not g.passed:
-            g.passed = True
-            g.at_gate = True
-            g.progress.set()
-            g.parked = True
-            g.go.wait(60)
-            g.parked = False
-            if g.abort:
-                raise FileNotFoundError(2, "history ended before the unlink step", self._name)
+        SCHED.point("shm:unlink")
         reg = WORLD.reg
         if self._name not in reg.segs:
             raise FileNotFoundError(2, "No such file or directory", self._name)
@@ -190,10 +358,13 @@ class FakeSharedMemory:
 
 def fake_open(path, mode="r", *a, **k):
     """the builtin open as seen by cascade.shm.disk: the page-out directory is a REAL temporary directory (so that whatever file API
-    the code uses sees the same files); only the injected fault is ours"""
-    if WORLD.reg.fault:
+    the code uses sees the same files); ours are the injected fault (per job) and the yield points"""
+    t = SCHED.current()
+    SCHED.point("file:open")
+    if (t.fault if t is not None else WORLD.reg.fault):
         raise OSError(28, "injected disk fault", str(path))
-    return open(path, mode, *a, **k)
+    f = open(path, mode, *a, **k)
+    return YFile(f) if t is not None else f
 
 
 class Job:
@@ -206,10 +377,19 @@ class Job:
         self.phase = "io"        # io -> (unlink, page-out only) -> cb -> done
         self.ok = None
         self.cb_exc = None
+        self.got = []            # what the body reported through its callback argument
+        self.btask = None        # the body, when it runs as a Task (page-out bodies always do)
+        self.ctask = None        # the Manager callback, when it runs as a Task (fine-grained ops)
+        self.fault = False
+
+    def tasks(self):
+        return [t for t in (self.btask, self.ctask) if t is not None]
 
 
 class JobBoard:
-    """all jobs submitted to either pool, in submission order"""
+    """all jobs submitted to either pool, in submission order.  Coarse steps (the op lists of every stream): io / unlink / cb.
+    Fine-grained steps (stream conc): body_step, cb_part, cb_step run the same code as Tasks from yield point to yield point; the
+    coarse steps finish whatever a fine-grained step has begun."""
 
     def __init__(self):
         self.jobs = []
@@ -222,88 +402,132 @@ class JobBoard:
             self.on_submit(j)
         return j
 
-    def run_io(self, jid, fault=False):
-        """page-in: the whole real body.  page-out: the real body up to (not including) its shm.unlink(): the body runs in a
-        helper thread that is parked at the unlink until run_unlink; the caller only continues once the thread is parked or done"""
-        if not (0 <= jid < len(self.jobs)) or self.jobs[jid].phase != "io":
-            return False
-        j = self.jobs[jid]
-        got = []
-        args = list(j.args[:-1]) + [lambda ok: got.append(bool(ok))]
-        j.got = got
-        reg = WORLD.reg          # (a thread abandoned after a hang must not touch the registry of a later history)
-        reg.fault = bool(fault)
-        try:
-            if j.kind != "out":
-                j.fn(*args)     # the real Disk._page_in body; it reports through our deferred callback
-            else:
-                gate = Gate()
+    def job(self, jid, *phases):
+        if not (isinstance(jid, int) and 0 <= jid < len(self.jobs)) or self.jobs[jid].phase not in phases:
+            return None
+        return self.jobs[jid]
 
-                def body():
-                    WORLD.gates[threading.get_ident()] = gate
-                    try:
-                        j.fn(*args)
-                    except Hang as h:
-                        j.hang = str(h)
-                    finally:
-                        WORLD.gates.pop(threading.get_ident(), None)
-                        gate.at_gate = False
-                        gate.progress.set()
-                t = threading.Thread(target=body, daemon=True)
-                j.gate, j.thread = gate, t
-                t.start()
-                if not gate.progress.wait(60):
-                    raise Hang("page-out body neither reached its unlink nor ended within 60 s")
-                if gate.at_gate:
-                    j.phase = "unlink"
-                    return True
-                t.join(60)
-        finally:
-            reg.fault = False
-        if getattr(j, "hang", None) or (j.kind == "out" and j.thread.is_alive()):
-            raise Hang(getattr(j, "hang", None) or "page-out body did not end within 60 s")
-        if len(got) != 1:
-            raise RuntimeError(f"disk job body called its callback {len(got)} times")
-        j.ok, j.phase = got[0], "cb"
+    # ---- bodies
+    def _body_task(self, j, fault):
+        if j.btask is None:
+            j.fault = bool(fault)
+            args = list(j.args[:-1]) + [lambda ok: j.got.append(bool(ok))]
+            j.btask = Task(j.fn, args, fault=j.fault, name=f"body-{j.jid}")
+        return j.btask
+
+    def _after_body(self, j):
+        t = j.btask
+        if t.done:
+            if t.exc is not None:
+                raise RuntimeError(f"disk job body raised {t.exc!r}")
+            if len(j.got) != 1:
+                raise RuntimeError(f"disk job body called its callback {len(j.got)} times")
+            j.ok, j.phase = j.got[0], "cb"
+        elif j.kind == "out" and (t.parked_at == "shm:unlink" or "shm:unlink" in t.passed):
+            j.phase = "unlink"
+
+    def run_io(self, jid, fault=False):
+        """page-in: the whole real body.  page-out: the real body up to (not including) its shm.unlink(): the body runs as a Task
+        that is parked at the unlink until run_unlink"""
+        j = self.job(jid, "io")
+        if j is None:
+            return False
+        if j.kind != "out" and j.btask is None:
+            reg = WORLD.reg          # (a thread abandoned after a hang must not touch the registry of a later history)
+            reg.fault = j.fault = bool(fault)
+            try:
+                # the real Disk._page_in body; it reports through our deferred callback
+                j.fn(*(list(j.args[:-1]) + [lambda ok: j.got.append(bool(ok))]))
+            finally:
+                reg.fault = False
+            if len(j.got) != 1:
+                raise RuntimeError(f"disk job body called its callback {len(j.got)} times")
+            j.ok, j.phase = j.got[0], "cb"
+            return True
+        t = self._body_task(j, fault)
+        t.run_until((lambda label: label == "shm:unlink") if j.kind == "out" else (lambda label: False))
+        self._after_body(j)
         return True
 
     def run_unlink(self, jid):
-        if not (0 <= jid < len(self.jobs)) or self.jobs[jid].phase != "unlink":
+        j = self.job(jid, "unlink")
+        if j is None:
             return False
-        j = self.jobs[jid]
-        j.gate.progress.clear()
-        j.gate.go.set()
-        j.thread.join(60)
-        if getattr(j, "hang", None) or j.thread.is_alive():
-            raise Hang(getattr(j, "hang", None) or "page-out body did not end within 60 s of its unlink")
-        if len(j.got) != 1:
-            raise RuntimeError(f"disk job body called its callback {len(j.got)} times")
-        j.ok, j.phase = j.got[0], "cb"
+        j.btask.finish()
+        self._after_body(j)
         return True
 
-    def busy_threads(self):
-        """threads running a real page-out body that are not parked at the gate by the harness"""
-        return [j.thread for j in self.jobs if getattr(j, "thread", None) is not None and j.thread.is_alive() and not j.gate.parked]
+    def body_step(self, jid, fault, n):
+        """fine-grained: start the body if need be (the fault flag counts only then) and let it pass n yield points; it parks at
+        the next one or ends.  Returns the labels passed, or None when the job has no body to run"""
+        j = self.job(jid, "io", "unlink")
+        if j is None:
+            return None
+        t = self._body_task(j, fault)
+        passed = t.run_until(counter_stop(n))
+        self._after_body(j)
+        return passed
 
-    def abort_all(self):
-        """end of a history: let parked page-out bodies die without touching anything"""
-        for j in self.jobs:
-            if j.phase == "unlink":
-                j.gate.abort = True
-                j.gate.go.set()
-                j.thread.join(60)
-                j.phase = "aborted"
+    # ---- callbacks
+    def _cb_task(self, j):
+        if j.ctask is None:
+            j.ctask = Task(j.callback, (j.ok,), name=f"cb-{j.jid}")
+        return j.ctask
+
+    def _after_cb(self, j):
+        t = j.ctask
+        if t.done:
+            j.phase = "done"
+            if t.exc is not None:
+                j.cb_exc = type(t.exc).__name__
 
     def run_cb(self, jid):
-        if not (0 <= jid < len(self.jobs)) or self.jobs[jid].phase != "cb":
+        j = self.job(jid, "cb")
+        if j is None:
             return False
-        j = self.jobs[jid]
+        if j.ctask is not None:
+            j.ctask.finish()
+            self._after_cb(j)
+            return True
         j.phase = "done"
         try:
             j.callback(j.ok)   # the real Manager callback (in the thread pool an exception would be parked in the future)
         except Exception as e:
             j.cb_exc = type(e).__name__
         return True
+
+    def cb_part(self, jid):
+        """fine-grained: run the callback up to its next blocking lock acquisition (parked right before it) or to its end"""
+        j = self.job(jid, "cb")
+        if j is None:
+            return None
+        passed = self._cb_task(j).run_until(lambda label: label.startswith("lock:"))
+        self._after_cb(j)
+        return passed
+
+    def cb_step(self, jid, n):
+        """fine-grained: let the callback pass n yield points of any kind"""
+        j = self.job(jid, "cb")
+        if j is None:
+            return None
+        passed = self._cb_task(j).run_until(counter_stop(n))
+        self._after_cb(j)
+        return passed
+
+    def cb_in_flight(self):
+        return [j for j in self.jobs if j.phase == "cb" and j.ctask is not None and not j.ctask.done]
+
+    def busy_threads(self):
+        """threads running real Disk-thread code that are not parked by the harness"""
+        return [t.thread for j in self.jobs for t in j.tasks() if t.busy()]
+
+    def abort_all(self):
+        """end of a history: let parked bodies and callbacks die without touching anything"""
+        for j in self.jobs:
+            for t in j.tasks():
+                if not t.done:
+                    t.kill()
+                    j.phase = "aborted"
 
 
 BOARD = types.SimpleNamespace(board=JobBoard())
@@ -321,23 +545,35 @@ class ManualExecutor:
 
 
 class Clock:
+    """stands in for the `time` module (and for functions imported from it by name).  `now` is scripted by the history; the clocks
+    are views of it with unrelated epochs: a stamp taken from one clock compared with a reading of another is off by decades"""
+    WALL0 = 1_790_000_000_000_000_000      # ns since 1970 (September 2026)
+    MONO0 = 263_000_000_000_000            # ns since boot (three days)
+    PERF0 = 77_250_000_000
+
     def __init__(self):
         self.now = 1
 
     def time_ns(self):
-        return self.now
+        return self.WALL0 + self.now
 
     def time(self):
-        return self.now / 1e9
+        return (self.WALL0 + self.now) / 1e9
 
     def sleep(self, *_):
         pass
 
     def monotonic_ns(self):
-        return self.now
+        return self.MONO0 + self.now
 
     def monotonic(self):
-        return self.now / 1e9
+        return (self.MONO0 + self.now) / 1e9
+
+    def perf_counter_ns(self):
+        return self.PERF0 + self.now
+
+    def perf_counter(self):
+        return (self.PERF0 + self.now) / 1e9
 
     def __getattr__(self, name):
         return getattr(_time, name)
